@@ -68,7 +68,9 @@ impl IdTable {
 const TEMPLATES: [(&str, &str); 4] = [("B0:%L[0]", "%R[0]"), ("%L[0]", "%R[1]"), ("B1:%L[0],%L?[1]", "%R?[1]"), ("%L[0]", "%R[0]")];
 
 /// model.def line menu: (weight text, feature text)
-const MODEL_LINES: [(&str, &str); 14] = [
+const MODEL_LINES: [(&str, &str); 16] = [
+    ("50", "B0:V/V"),     // -35000 with factor 700
+    ("-47.5", "V/x"),     // +33250 with factor 700 (bare template)
     ("0.9", "B1:N,x/BOS/EOS"), // left word -> EOS
     ("0.6", "BOS/EOS/x"),      // BOS -> right word (bare template)
     ("-0.8", "B1:N,x/"),
@@ -111,8 +113,16 @@ pub fn run(tier: Tier) -> i32 {
         for &t in tset {
             fdef.push_str(&format!("BIGRAM {}/{}\n", TEMPLATES[t].0, TEMPLATES[t].1));
         }
-        let all_masks = if tier == Tier::Thorough { ri <= 1 && li <= 1 } else { ri == 0 && li == 0 && ts % 2 == 0 };
-        let masks: Vec<usize> = if all_masks { (0..nmask).collect() } else { vec![0, nmask - 1, 0b10101010101010, 0b01010101010101, 0b00010001111111, 0b11000, 0b1000, 0b10000, 0b111] };
+        let all_masks = tier == Tier::Thorough && ri <= 1 && li <= 1 && ts % 2 == 0;
+        // quick (and the other table pairs in thorough): every subset of at most 3 lines and every
+        // subset missing at most one line (interactions between lines are pairwise: same text
+        // overriding, sums over templates)
+        let small_masks = ri <= 1 && li <= 1;
+        let masks: Vec<usize> = if all_masks {
+            (0..nmask).collect()
+        } else if small_masks {
+            (0..nmask).filter(|m| m.count_ones() <= 3 || m.count_ones() as usize >= MODEL_LINES.len() - 1).collect()
+        } else { vec![0, nmask - 1, 0b1010101010101010, 0b0101010101010101, 0b0001000111111111, 0b1100000, 0b100000, 0b1000000, 0b11100, 0b11, 0b1, 0b10] };
         for mask in masks {
             for factor in factors {
                 st.states += 1;
